@@ -1878,6 +1878,28 @@ class MultiSpeciesLattice(Lattice):
             pairs=new_pairs,
         )
 
+    def save_hdf5(self, hdf5_saver, h5gr, subpath):
+        """Export `self` into a HDF5 file.
+
+        In addition to the data saved for the :class:`Lattice`, it saves
+        :attr:`simple_lattice` and :attr:`species_names` under these names
+        and :attr:`simple_Lu` as HDF5 attribute.
+        """
+        super().save_hdf5(hdf5_saver, h5gr, subpath)
+        hdf5_saver.save(self.simple_lattice, subpath + 'simple_lattice')
+        hdf5_saver.save(self.species_names, subpath + 'species_names')
+        h5gr.attrs['simple_Lu'] = self.simple_Lu
+
+    @classmethod
+    def from_hdf5(cls, hdf5_loader, h5gr, subpath):
+        """Load instance from a HDF5 file, see :meth:`save_hdf5`."""
+        obj = super().from_hdf5(hdf5_loader, h5gr, subpath)
+        obj.simple_lattice = hdf5_loader.load(subpath + 'simple_lattice')
+        obj.species_names = hdf5_loader.load(subpath + 'species_names')
+        obj.N_species = len(obj.species_names)
+        obj.simple_Lu = int(hdf5_loader.get_attr(h5gr, 'simple_Lu'))
+        return obj
+
     def _generate_new_pairs(self):
         N_sp = self.N_species
         names = self.species_names
